@@ -11,6 +11,11 @@ CLAIMED = {
    note="Trusted: Coq kernel, extraction+OCaml driver, avl_drv.c, ASan/UBSan; the pointer-level representation (parent pointers, uint8_t height) is modelled by zipper + stored heights, tied by per-op dump equality (exhaustive over all shapes of height <= 4 x all positions, random histories)",
    technique="Coq proof (invariant + refinement to sorted list) + extracted-model differential correspondence",
    ref="4 C16"),
+ "C05": dict(
+   text="Proof (Coq): on the model of iv_timer.c's heap-in-radix-tree, register/unregister of ANY victim keep the heap invariant (order, exact back indices, dense slots, minimal radix depth, all live indices addressable) at every population size with no bound (growth/shrink across 128, 16384, ... is the general case), change no other timer's membership or expiry (abstraction to a finite map), the expired batch is sorted and complete, handlers with arbitrary register/unregister scripts run in non-decreasing expiry order, and no history crashes or aborts. Tie: extracted model vs real iv_timer.c on identical histories, slot array walked through the real radix tree + every back index after every op, boundary ramps to 33000 timers.",
+   note="Trusted: Coq kernel, extraction+OCaml driver, timer_drv.c (sets st->time, calls iv_run_timers directly), ASan/UBSan; radix tree modelled as partial map + depth (node allocation/union aliasing not modelled); expiries as Z ns",
+   technique="Coq proof (heap invariant with one-suspect sift invariants, refinement to finite map) + extracted-model differential correspondence",
+   ref="4 C05"),
 }
 NA_REASON = "not claimed yet: the model/theorem/tie for this property is still being built (see DESIGN.md section 7 order of work)"
 
